@@ -491,6 +491,24 @@ Proof.
   destruct (update_region s1 pm) as [s3|] eqn:E3; [exact (update_region_disk _ _ _ E3 Hd1) | exact Hd1].
 Qed.
 
+Lemma split_unhosted_disk s p k ch :
+  sdisk s = smem s -> sdisk (fst (split_unhosted s p k ch)) = smem (fst (split_unhosted s p k ch)).
+Proof.
+  intros Hd. unfold split_unhosted.
+  set (child2 := if bytes_eqb (g_start (r_reg (set_state ch 1))) [] then set_start (set_state ch 1) k
+                 else set_state ch 1).
+  destruct (p =? 0); [exact Hd|].
+  destruct (rid child2 =? 0); [exact Hd|].
+  destruct (bytes_eqb (g_start (r_reg child2)) []); [exact Hd|].
+  destruct (rfind p (smem s)) as [pm|]; [|exact Hd].
+  destruct (negb (bytes_eqb (g_end (r_reg pm)) []) && negb (bytes_ltb (g_start (r_reg child2)) (g_end (r_reg pm))));
+    [exact Hd|].
+  destruct (bytes_leb (g_start (r_reg child2)) (g_start (r_reg pm))); [exact Hd|].
+  destruct (update_region s (bump (set_end pm (g_start (r_reg child2))))) as [s1|] eqn:E1; [|exact Hd].
+  pose proof (update_region_disk _ _ _ E1 Hd) as Hd1.
+  destruct (update_region s1 pm) as [s3|] eqn:E3; [exact (update_region_disk _ _ _ E3 Hd1) | exact Hd1].
+Qed.
+
 Lemma merge_disk s t src : sdisk s = smem s -> sdisk (fst (merge s t src)) = smem (fst (merge s t src)).
 Proof.
   intros Hd. unfold merge, merge_with.
@@ -507,13 +525,14 @@ Qed.
 
 Lemma apply_disk s o : sdisk s = smem s -> sdisk (fst (apply s o)) = smem (fst (apply s o)).
 Proof.
-  intros Hd. destruct o as [m|id st|id|p k ch|t src]; cbn [apply].
+  intros Hd. destruct o as [m|id st|id|p k ch|p k ch|t src]; cbn [apply].
   - destruct (update_region s m) eqn:E; cbn [of_opt fst]; [now apply (update_region_disk s m) | exact Hd].
   - unfold update_region_state. destruct (id =? 0); [exact Hd|].
     destruct (rfind id (smem s)); [|exact Hd].
     destruct (update_region s _) eqn:E; cbn [of_opt fst]; [now apply (update_region_disk _ _ _ E) | exact Hd].
   - destruct (remove_region s id) eqn:E; cbn [of_opt fst]; [now apply (remove_region_disk s id) | exact Hd].
   - now apply split_disk.
+  - now apply split_unhosted_disk.
   - now apply merge_disk.
 Qed.
 
